@@ -127,19 +127,37 @@ class ActGen:
             elif o == "blink":
                 d = r.choice([0, 1, 5, 20]) if ok else r.choice([5, 0])
                 t = r.choice([1, 2, 3]) if ok else r.choice([-1, 0, 2])
-                if r.random() < 0.5:
+                form = r.random()
+                if form < 0.25 and ok:
+                    self.emit(f"{name}.blink({self.arg(d)})")   # times omitted: the signature default (1), whatever earlier calls passed
+                    self.features.add("led.blink:default-times")
+                elif form < 0.6:
                     self.emit(f"{name}.blink({self.arg(d)}, {self.arg(t)})")
                 else:
                     self.emit(f"{name}.blink({self.arg(d)}, times={self.arg(t)})")
             elif o in ("fade_in", "fade_out"):
                 st = r.choice([25, 50, 100, 255, 64]) if ok else r.choice([0, -5, 100])
                 dl = r.choice([0, 1, 3])
-                self.emit(f"{name}.{o}({self.arg(st)}, {self.arg(dl)})" if r.random() < 0.5 else f"{name}.{o}(step={self.arg(st)}, delay_ms={self.arg(dl)})")
+                form = r.random()
+                if form < 0.12 and ok:
+                    self.emit(f"{name}.{o}(delay_ms={self.arg(r.choice([0, 1]))})")   # step omitted (default 5)
+                    self.features.add("led.fade:default-step")
+                elif form < 0.3 and ok:
+                    self.emit(f"{name}.{o}({self.arg(st)})" if r.random() < 0.5 else f"{name}.{o}(step={self.arg(st)})")   # delay_ms omitted (default 10)
+                    self.features.add("led.fade:default-delay")
+                elif form < 0.65:
+                    self.emit(f"{name}.{o}({self.arg(st)}, {self.arg(dl)})")
+                else:
+                    self.emit(f"{name}.{o}(step={self.arg(st)}, delay_ms={self.arg(dl)})")
             else:
                 pat = [r.choice([0, 1, 1, 0, 128, 255, 2, 77]) for _ in range(r.randint(0, 5))]
                 if not ok:
                     pat.append(r.choice([300, -4]))
-                self.emit(f"{name}.flash_pattern({pat}, {r.choice([0, 2, 10])})")
+                if r.random() < 0.2 and len(pat) <= 2:
+                    self.emit(f"{name}.flash_pattern({pat})")   # delay_ms omitted (default 200)
+                    self.features.add("led.flash:default-delay")
+                else:
+                    self.emit(f"{name}.flash_pattern({pat}, {r.choice([0, 2, 10])})")
         elif kind == "rgb":
             o = r.choice(["set", "set", "on", "off", "fade", "blink"])
             self.features.add("rgb." + o)
